@@ -21,6 +21,7 @@ import (
 type c02Case struct {
 	Kind   ref.Kind    `json:"kind"`
 	Layout geom.Layout `json:"layout"`
+	Init   int         `json:"init,omitempty"` // 0 = empty geometry, 1 = three parts already pushed
 	Ops    []int       `json:"ops"`
 	Names  []string    `json:"op_names,omitempty"`
 }
@@ -28,7 +29,7 @@ type c02Case struct {
 func init() {
 	engine.Register(&engine.Check{
 		ID: "C02", Level: "model_checking",
-		Rule: "BFS over operation histories (depth <=5 quick, <=6 thorough) on real Polygon/MultiPoint/MultiLineString/MultiPolygon/GeometryCollection objects; alphabet = Push(part) for a per-type part menu incl. empty parts, parts with empty sub-parts and the receiver's own part accessors (storage aliasing), Push(wrong-layout part, same and different stride), Reverse, Swap with a second geometry, g=g.Clone() (original must stay unchanged), for collections variadic Push with one bad member and SetLayout; invariants evaluated in every state against a list-of-parts model; states deduplicated on the full observable state incl. capacity",
+		Rule: "BFS over operation histories (depth <=5 quick, <=6 thorough) on real Polygon/MultiPoint/MultiLineString/MultiPolygon/GeometryCollection objects; alphabet = Push(part) for a per-type part menu incl. empty parts, parts with empty sub-parts and the receiver's own part accessors (storage aliasing), Push(wrong-layout part, same and different stride), Reverse, Swap with a second geometry, g=g.Clone() keeping both sides live with their own models, switching between the two sides; start states: empty and three parts already pushed, for collections variadic Push with one bad member and SetLayout; invariants evaluated in every state against a list-of-parts model; states deduplicated on the full observable state incl. capacity",
 		Run:    c02Run,
 		Replay: func(c *engine.Ctx, kind string, raw json.RawMessage) { c02Exec(c, decodeCase[c02Case](raw), nil) },
 		Assumptions: []string{
@@ -241,8 +242,8 @@ type c02State struct {
 	m           *c02Model
 	other       geom.T
 	om          *c02Model
-	shadow      geom.T // original left behind by g = g.Clone()
-	shadowKey   string
+	shadow      geom.T // the other side of the last g = g.Clone(): still a live geometry with its own model
+	sm          *c02Model
 	pushCounter int
 }
 
@@ -368,8 +369,16 @@ func c02Alphabet(k ref.Kind, l geom.Layout) []c02Op {
 		ops = append(ops, c02Op{"g=g.Clone()", func(s *c02State) string {
 			cl := cloneOf(s.g)
 			s.shadow = s.g
-			s.shadowKey = stateKey(s.g)
+			s.sm = s.m.clone()
 			s.g = cl
+			return ""
+		}})
+		ops = append(ops, c02Op{"switch to the other side of the last Clone", func(s *c02State) string {
+			if s.shadow == nil {
+				return ""
+			}
+			s.g, s.shadow = s.shadow, s.g
+			s.m, s.sm = s.sm, s.m
 			return ""
 		}})
 		return ops
@@ -494,8 +503,18 @@ func shapeOf(g *ref.G) string {
 	return "?"
 }
 
-func c02Init(k ref.Kind, l geom.Layout) *c02State {
+func c02Init(k ref.Kind, l geom.Layout, init int) *c02State {
 	s := &c02State{kind: k, layout: l, g: freshMulti(k, l), m: &c02Model{kind: k, layout: l}}
+	if init == 1 && k != ref.Collection {
+		// non-initial start: three parts already pushed (the end-offset slice then has spare capacity)
+		menu := partMenu(k, l)
+		for _, i := range []int{1, len(menu) - 1, 1} {
+			if err := pushPart(s.g, menu[i].MustBuild()); err != nil {
+				panic(err)
+			}
+			s.m.parts = append(s.m.parts, menu[i].Clone())
+		}
+	}
 	if k != ref.Collection {
 		s.other = freshMulti(k, l)
 		s.om = &c02Model{kind: k, layout: l}
@@ -556,8 +575,10 @@ func c02Invariants(s *c02State) string {
 			return d
 		}
 	}
-	if s.shadow != nil && stateKey(s.shadow) != s.shadowKey {
-		return "mutating a clone changed the original it was cloned from"
+	if s.shadow != nil {
+		if d := check(s.shadow, s.sm, "other side of Clone"); d != "" {
+			return "operating on one side of a Clone changed the other: " + d
+		}
 	}
 	return ""
 }
@@ -568,7 +589,7 @@ func (s *c02State) key() string {
 		k += "|" + stateKey(s.other)
 	}
 	if s.shadow != nil {
-		k += "|shadow"
+		k += "|shadow:" + stateKey(s.shadow)
 	}
 	if s.m.fixed != geom.NoLayout {
 		k += fmt.Sprintf("|fixed%d", s.m.fixed)
@@ -590,7 +611,7 @@ func c02Exec(c *engine.Ctx, cs c02Case, onState func(key string)) {
 	fail := ""
 	failStep := -1
 	p, stack := engine.Guard(func() {
-		s = c02Init(cs.Kind, cs.Layout)
+		s = c02Init(cs.Kind, cs.Layout, cs.Init)
 		for i, o := range cs.Ops {
 			if d := ops[o].apply(s); d != "" {
 				fail, failStep = d, i
@@ -652,23 +673,24 @@ func c02Run(c *engine.Ctx) {
 	}
 	c.Note("max_depth", depth)
 	type job struct {
-		k ref.Kind
-		l geom.Layout
+		k    ref.Kind
+		l    geom.Layout
+		init int
 	}
 	var jobs []job
 	for _, k := range []ref.Kind{ref.Polygon, ref.MultiPoint, ref.MultiLineString, ref.MultiPolygon} {
 		for _, l := range layouts {
-			jobs = append(jobs, job{k, l})
+			jobs = append(jobs, job{k, l, 0}, job{k, l, 1})
 		}
 	}
-	jobs = append(jobs, job{ref.Collection, geom.NoLayout})
+	jobs = append(jobs, job{ref.Collection, geom.NoLayout, 0})
 	var maxDepthDone int64 = int64(depth)
 	for _, j := range jobs {
 		ops := c02Alphabet(j.k, j.l)
 		seen := map[[16]byte]struct{}{}
 		var mu sync.Mutex
 		frontier := [][]int{{}}
-		c02Exec(c, c02Case{Kind: j.k, Layout: j.l}, func(k string) { seen[hash128(k)] = struct{}{} })
+		c02Exec(c, c02Case{Kind: j.k, Layout: j.l, Init: j.init}, func(k string) { seen[hash128(k)] = struct{}{} })
 		for d := 1; d <= depth && len(frontier) > 0; d++ {
 			if c.Expired() {
 				if int64(d-1) < maxDepthDone {
@@ -682,7 +704,7 @@ func c02Run(c *engine.Ctx) {
 				for o := range ops {
 					hh := append(append([]int{}, h...), o)
 					c.Count("transitions", 1)
-					c02Exec(c, c02Case{Kind: j.k, Layout: j.l, Ops: hh}, func(ks string) {
+					c02Exec(c, c02Case{Kind: j.k, Layout: j.l, Init: j.init, Ops: hh}, func(ks string) {
 						k := hash128(ks)
 						mu.Lock()
 						if _, ok := seen[k]; !ok {
